@@ -176,14 +176,16 @@ def check_squash(acc, np, sim, X, method, r, x0, base, cq, keep_sign):
                     why = why or 'not non-decreasing: X %r<=%r but S %r>%r' % (flat[i], flat[j], Sf[i], Sf[j])
         if why is None and not signed and not all(-TOL <= x <= 1 + TOL for x in Sf):
             why = 'leaves [0,1]: %r' % (Sf,)
-        if why is None and not keep_sign and r is not None and cq is False:
+        if why is None and not keep_sign and r is not None and cq is False and (method == 'logistic' or not x0):
+            # (an explicit non-zero x0 is documented as "not supported" for gaussian/exponential: whether it is ignored is not
+            #  part of C19, so only monotonicity, range and reproducibility are judged there)
             xx0 = x0_used if method == 'logistic' else 0.0
             exp = ref_squash(flat, method, r, float(xx0), base)
             if not all(close(x, y) for x, y in zip(Sf, exp)):
                 why = 'differs from the documented formula: expected %r' % (exp,)
         if why is None:
             kw2 = {'method': method, 'r': r_used, 'keep_sign': keep_sign}
-            if method == 'logistic':
+            if method == 'logistic' or x0 is not None:
                 kw2['x0'] = x0_used
             if base is not None:
                 kw2['base'] = base
@@ -219,7 +221,7 @@ def worker(acc, shard, nshards, tier, seed):
                         acc.case('d2s-' + method, nontrivial=nt)
         for method in ('logistic', 'gaussian', 'exponential'):
             for r in (None, 0.5, 2):
-                for x0 in ((None, 0, 1) if method == 'logistic' else (None,)):
+                for x0 in (None, 0, 1):
                     for base in (None, 2, 10):
                         for cq in (False, 0.5, (0.5, 0.2)):
                             for keep_sign in (False, True):
